@@ -44,12 +44,15 @@ def run(ctx):
     if text_var is None:
         raise AnalysisError("parser: the text variable was not found")
 
+    # the element class: looked up from the tag at every attempt, or once before the ladder (a name bound exactly once to that lookup)
+    class_exprs = P.class_lookup_exprs(f.node, node_p)
+
     def text_payload(st):
         if isinstance(st, ast.Assign) and isinstance(st.value, ast.Call):
             kw = {k.arg: k.value for k in st.value.keywords}
-            if 'value_' in kw and unparse(st.value.func) == f"eval(convert_to_xml_class_name({node_p}.tag))":
+            if 'value_' in kw and unparse(st.value.func) in class_exprs:
                 return kw['value_']
-            if st.value.args and unparse(st.value.func) == f"eval(convert_to_xml_class_name({node_p}.tag))":
+            if st.value.args and unparse(st.value.func) in class_exprs:
                 return st.value.args[0]
         return None
     k_var, v_var = [unparse(e) for e in attr_loop.target.elts] if isinstance(attr_loop.target, ast.Tuple) else (None, None)
